@@ -75,6 +75,22 @@ static void vf_bfs_setcur(struct vf_domain* d, const int* ops, size_t n, int ext
   vf_set_cur("%s | %s: %s", a, d->name, b);
 }
 
+/* suffix=K (a parameter every BFS harness understands): the indices of the last K operations of the history are part of the
+** state key.  A key built from the concrete state cannot show state the harness does not know about (a memo, a cached
+** threshold, a cursor a change to the library might add): two histories that end in the same visible state are then
+** merged and only the shorter one is continued.  With the suffix, histories that reach one visible state through
+** different last operations - growth or assignment, removal or clearing, a query in between - stay apart, and self-loops
+** (queries, refused operations) are continued from like any other transition. */
+static int vf_bfs_suffix;
+static void vf_bfs_addsuffix(char* canon, size_t cap, const int* ops, size_t n, int extra) {
+  if (vf_bfs_suffix <= 0) return;
+  size_t total = n + (extra >= 0 ? 1 : 0);
+  size_t from = total > (size_t)vf_bfs_suffix ? total - (size_t)vf_bfs_suffix : 0;
+  size_t o = strlen(canon);
+  if (total > from && o + 4 < cap) o += snprintf(canon + o, cap - o, " ~");
+  for (size_t i = from; i < total && o + 16 < cap; i++) o += snprintf(canon + o, cap - o, "%d,", i < n ? ops[i] : extra);
+}
+
 /* replay ops on a fresh object; returns VF_OK, or VF_BAD if some step reported a violation */
 static int vf_bfs_replay(struct vf_domain* d, const int* ops, size_t n) {
   d->reset();
@@ -93,6 +109,8 @@ static void vf_bfs_run(struct vf_domain* d) {
   vf.phase = d->name;
   vf_bfs_cap = 1 << 16; vf_bfs_n = 0;
   vf_bfs_states = malloc(vf_bfs_cap * sizeof *vf_bfs_states);
+  vf_bfs_suffix = (int)vf_param_i("suffix", 0);
+  if (vf_bfs_suffix) vf_note("%s: the last %d operation(s) of the history are part of the state key", d->name, vf_bfs_suffix);
   vf_set_init(&vf_bfs_seen, 1 << 17);
   int ops[4096];
 
@@ -124,6 +142,7 @@ static void vf_bfs_run(struct vf_domain* d) {
       intact = 0;
       if (!verified) {
         d->canon(vf_bfs_canon2, sizeof vf_bfs_canon2);
+        vf_bfs_addsuffix(vf_bfs_canon2, sizeof vf_bfs_canon2, ops, n, -1);
         long idx = vf_set_get(&vf_bfs_seen, vf_bfs_canon2);
         if (idx != (long)s) {
           fprintf(stderr, "vf_bfs[%s]: replay reached a different state than stored (nondeterminism): %s\n  got %s\n", d->name, vf_cur, vf_bfs_canon2);
@@ -143,6 +162,7 @@ static void vf_bfs_run(struct vf_domain* d) {
         continue;
       }
       d->canon(vf_bfs_canon, sizeof vf_bfs_canon);
+      vf_bfs_addsuffix(vf_bfs_canon, sizeof vf_bfs_canon, ops, n, op);
       long idx = vf_set_put(&vf_bfs_seen, vf_bfs_canon, (uint32_t)vf_bfs_n);
       /* a self-loop (a query, a refused operation) is NOT continued from: the real operation ran, and whatever the
       ** canonical string does not show (allocator state, stream bookkeeping, a seeded static) may differ from what a
